@@ -585,7 +585,10 @@ def c21(run):
     if run.tier == "quick":
         gen_sync(run, [("1, 2", 2, 0, 0, 1, 40, 0), ("1, 2, 3", 3, 1, 0, 2, 70, 40)], has_reconnect)
     else:
-        mc_sync(run, "1, 2, 3", 2, 0, 0, 1, timeout=2400)
+        # (3 peers with 2 changes and a drop is > 30 M distinct states: hours; exhaustive runs: 3 peers with 1 change,
+        # 2 peers with 3 changes and a false positive, both with a dropped link)
+        mc_sync(run, "1, 2, 3", 1, 0, 0, 1, timeout=2400)
+        mc_sync(run, "1, 2", 3, 1, 0, 1, timeout=2400)
         gen_sync(run, [("1, 2", 2, 1, 0, 1, 40, 0), ("1, 2", 3, 0, 0, 2, 60, 0), ("1, 2, 3", 4, 1, 0, 3, 100, 300)], has_reconnect)
 
 
